@@ -34,6 +34,11 @@ def gen_str(rng):
         return ""
     if r < 0.10:
         return rng.choice([" ", "  ", "\t", "\n", "\v", "\n\n", "\v\v", " \n ", "\n\v\n", "\r\n"])
+    if r < 0.16:
+        # many breaks in one paragraph / many paragraphs (counts 9, 17, 33, 65: one past a small power of two)
+        n = rng.choice([9, 10, 17, 33, 65])
+        brk = rng.choice(["\v", "\n", "\v", None])
+        return "".join(rng.choice(["x", "y", "", "é", " "]) + (brk or rng.choice(["\n", "\v"])) for _ in range(n)) + rng.choice(["", "end"])
     s = "".join(rng.choice(ALPHA) for _ in range(rng.randint(1, 14)))
     if rng.random() < 0.15:
         s = rng.choice(["\n", "\v", " "]) + s
